@@ -9,6 +9,9 @@ pub fn eval(op: &str) -> String {
     if op.split_whitespace().nth(1) == Some("doc") {
         return eval_c20_doc(op);
     }
+    if let Some(r) = crate::adevgen::eval_dev_any(op) {
+        return r;
+    }
     let outs = run_history(op);
     format!("{} ## oracle={}", outs.join(" ; "), oracle_c20(op, &outs))
 }
@@ -100,6 +103,18 @@ pub fn run(tier: &str, seed: u64, dir: &str) {
                 }
             }
             sink.case(&line, &eval(&line), "persist-every-step", true);
+        }
+    }
+    // a restored session handed to the two front-ends (async: `Device::new_with_session`, nb:
+    // `set_session`), at counters on both sides of the 16- and 32-bit boundaries: the device holds
+    // the session (snapshot) and its next uplink is the original's
+    for region in REGIONS {
+        for (k, up) in [0u32, 1, 1000, 0xfffe, 0xffff, 0x1_0000, 0x7fff_ffff, 0xffff_fffe, 0xffff_ffff].into_iter().enumerate() {
+            let down = if k % 3 == 0 { "-".to_string() } else { (up / 2).to_string() };
+            let op = format!("C20 adev {} {} - 15 40 {} 57 ; sess {} {} {} ; snap ; asend 1 0 aa |  ; snap ; asend 2 1 bbcc |  ; snap", region, 100 + k, k % 2, DEVADDR, up, down);
+            sink.case(&op, &eval(&op), "device-restore", true);
+            let op = format!("C20 nbdev {} {} - 0 100 ; sess {} {} {} ; snap ; nsend 1 0 aa ; nradio txdone 1000 ; ntimeout ; ntimeout ; ntimeout ; ntimeout ; snap ; nsend 2 1 bbcc ; snap", region, 200 + k, DEVADDR, up, down);
+            sink.case(&op, &eval(&op), "device-restore", true);
         }
     }
     // structurally mutated documents
